@@ -71,6 +71,7 @@ type Run struct {
 	prop    string
 	sitesHit map[string]bool
 	needs   map[string]bool
+	foreign map[string]string // callee clauses of other properties relied upon in a property-filtered run
 	dynFn   *Val
 	inDefer int
 	kindOrd map[string]map[ssa.Instruction]int
@@ -137,7 +138,7 @@ func (e *Engine) inRepo(fn *ssa.Function) bool {
 
 func newRun(e *Engine, fn *ssa.Function, ct *Contract) *Run {
 	return &Run{eng: e, fn: fn, ct: ct, name: fnName(fn), declSet: map[string]bool{}, heap0: map[string]string{}, ghost0: map[string]string{},
-		assumed: map[string]bool{}, noteSet: map[string]bool{}, safeN: map[string]int{}, sitesHit: map[string]bool{}, needs: map[string]bool{}, kindOrd: map[string]map[ssa.Instruction]int{}}
+		assumed: map[string]bool{}, noteSet: map[string]bool{}, safeN: map[string]int{}, sitesHit: map[string]bool{}, needs: map[string]bool{}, foreign: map[string]string{}, kindOrd: map[string]map[ssa.Instruction]int{}}
 }
 
 // emit records a proof obligation: pc => goal.
